@@ -396,6 +396,19 @@ pub fn n64() -> Vec<i128> {
         v.push(x);
         v.push(-x);
     }
+    // integers that need rounding on the way to a double: around the midpoints between
+    // neighbouring doubles (ties and their +-1 neighbours; even and odd mantissas), 2^53 .. 2^64
+    for k in 53..=63u32 {
+        let base = 1i128 << k;
+        let ulp = 1i128 << (k - 52);
+        for m in [0i128, 1, 2, 3, (1 << 20) + 1] {
+            let mid = base + m * ulp + ulp / 2;
+            for d in [-1i128, 0, 1] {
+                v.push(mid + d);
+                v.push(-(mid + d));
+            }
+        }
+    }
     v.retain(|&x| x >= -(1i128 << 63) && x <= (1i128 << 64) - 1);
     v.sort();
     v.dedup();
